@@ -98,3 +98,17 @@ Print Assumptions C07_boolean_float_roundtrip.
 Print Assumptions C07_decimal_format_then_parse_is_identity.
 Print Assumptions C07_integer_string_roundtrip_closed.
 Print Assumptions C07_boolean_float_roundtrip_closed.
+
+(* State space: the objects this property's model stands for have exactly the fields the model accounts for (StateSpace.v;
+   gen/StateSpaceGen.v is regenerated from the Go sources on every run). A new field - a cache, a memo, a counter - is state
+   the model does not have, so the theorems above would no longer be about the object. *)
+From Coq Require Import String.
+Require Import StateSpaceGen StateSpace.
+Open Scope string_scope.
+Theorem C07_state_space :
+  fields_of "variants.Variant" = fields ["typ"; "value"] /\
+  fields_of "variants.AbstractVariantOperations" = fields ["Overrides"] /\
+  fields_of "variants.TypeUnsafeVariantOperations" = fields ["embedded *AbstractVariantOperations"] /\
+  fields_of "variants.TypeSafeVariantOperations" = fields ["embedded *AbstractVariantOperations"].
+Proof. vm_compute. repeat split; reflexivity. Qed.
+Print Assumptions C07_state_space.
